@@ -1,5 +1,5 @@
-(* Proofs about Model/Ticker.v: rounding arithmetic, and one inductive invariant of the LTS
-   from which the C18 theorems follow for every label sequence. *)
+(* Proofs about Model/Ticker.v: the rounding arithmetic of aligned_ticker.go.  The invariant of
+   the LTS and the theorems about every label sequence are in Proofs/TickerLTS.v. *)
 From Coq Require Import ZArith List Bool Lia Sorted.
 From GS Require Import Base.LTS Model.Ticker.
 Import ListNotations.
